@@ -16,7 +16,7 @@ RULE = (
     "coroutine that sets prevent_default, which must have no effect -, attached to one or both elements of a vector, declared on a "
     "base or a derived driver class) x element kind (Text, Number, Switch, Light, BLOB) x vector enabled or not x 1 or 2 instances, each of "
     "the derived or of the base class (the classes share the property definitions) x op sequences (client newXXXVector through the Router, set_value(), direct assignment, reads; values from a "
-    "two-value domain so that changing and unchanged writes both occur). Handlers are closures appending (handler, instance, event "
+    "two-value domain - three for Text: the empty text is a value - so that changing and unchanged writes both occur). Handlers are closures appending (handler, instance, event "
     "type, element, payload, element value now, #publications now, in-task?) to a trace; a recording client counts publications. "
     "Oracle (trace vs analytic expectation): each Write handler of the element exactly once with the requested value, plain ones "
     "before any state change/publication, coroutine ones as tasks afterwards; veto => no change, no publication, no Change; "
